@@ -64,6 +64,8 @@ pub struct Job {
     pub features: Option<Vec<String>>,
     pub all_features: bool,
     pub examples: bool,
+    /// build profile: dev (debug_assertions on) or release (debug_assertions off)
+    pub release: bool,
 }
 
 fn powerset(items: &[String]) -> Vec<Vec<String>> {
@@ -112,19 +114,23 @@ pub fn jobs(thorough: bool) -> (Vec<Job>, Vec<CrateSpec>) {
             let ex = !s.examples.is_empty() && s.examples.iter().any(|(_, req)| req.iter().all(|r| set.contains(r)));
             // the library alone (building examples would pull in dev-dependencies, whose features
             // unify with the crate's own and can mask a missing cfg gate)
-            out.push(Job { krate: s.name.clone(), features: Some(set.clone()), all_features: false, examples: false });
+            out.push(Job { krate: s.name.clone(), features: Some(set.clone()), all_features: false, examples: false, release: false });
             if ex {
-                out.push(Job { krate: s.name.clone(), features: Some(set), all_features: false, examples: true });
+                out.push(Job { krate: s.name.clone(), features: Some(set), all_features: false, examples: true, release: false });
             }
         }
         for ex in [false, true] {
             if ex && s.examples.is_empty() {
                 continue;
             }
-            out.push(Job { krate: s.name.clone(), features: None, all_features: false, examples: ex });
-            out.push(Job { krate: s.name.clone(), features: None, all_features: true, examples: ex });
+            out.push(Job { krate: s.name.clone(), features: None, all_features: false, examples: ex, release: false });
+            out.push(Job { krate: s.name.clone(), features: None, all_features: true, examples: ex, release: false });
         }
     }
+    // the build profile is a second configuration axis (cfg(debug_assertions) gates code too, and
+    // debug_assert! arguments are type-checked but not evaluated in release): every job in both
+    let rel: Vec<Job> = out.iter().cloned().map(|mut j| { j.release = true; j }).collect();
+    out.extend(rel);
     (out, specs)
 }
 
@@ -139,6 +145,9 @@ pub fn run_job(j: &Job, target_dir: &str) -> (bool, String) {
         if !f.is_empty() {
             cmd.args(["--features", &f.join(",")]);
         }
+    }
+    if j.release {
+        cmd.arg("--release");
     }
     if j.examples {
         cmd.arg("--examples");
@@ -183,6 +192,7 @@ pub fn run(ctx: &'static Ctx) -> (&'static str, Value, Vec<&'static str>) {
                 st.eval();
                 st.dim("crate", &j.krate);
                 st.dim("with_examples", j.examples);
+                st.dim("profile", if j.release { "release" } else { "dev" });
                 let label = match (&j.features, j.all_features) {
                     (_, true) => "--all-features".to_string(),
                     (None, _) => "default".to_string(),
@@ -194,9 +204,9 @@ pub fn run(ctx: &'static Ctx) -> (&'static str, Value, Vec<&'static str>) {
                     st.outcome("fails");
                     let what = if stderr.contains("examples/") { "examples" } else { "lib" };
                     ctx.fail(
-                        &format!("build:{}:{what}:{}", j.krate, first_error(&stderr)),
-                        || format!("cargo check -p {} {label} failed:\n{}", j.krate, stderr.lines().filter(|l| l.starts_with("error") || l.trim_start().starts_with("-->")).take(8).collect::<Vec<_>>().join("\n")),
-                        || json!({"crate": j.krate, "features": j.features, "all_features": j.all_features, "examples": j.examples}),
+                        &format!("build:{}:{what}:{}:{}", j.krate, if j.release { "release" } else { "dev" }, first_error(&stderr)),
+                        || format!("cargo check{} -p {} {label} failed:\n{}", if j.release { " --release" } else { "" }, j.krate, stderr.lines().filter(|l| l.starts_with("error") || l.trim_start().starts_with("-->")).take(8).collect::<Vec<_>>().join("\n")),
+                        || json!({"crate": j.krate, "features": j.features, "all_features": j.all_features, "examples": j.examples, "release": j.release}),
                     );
                 }
                 if j.features.as_ref().map(|f| f.len() >= 2).unwrap_or(false) {
@@ -210,7 +220,7 @@ pub fn run(ctx: &'static Ctx) -> (&'static str, Value, Vec<&'static str>) {
             .reduce(Stats::new, Stats::merge)
     });
     let cov = stats.coverage(
-        "features derived from the four manifests ([features] keys + optional dependencies); thorough = the complete powerset per crate (model 2^3, decode 2^2, data 2^11 incl. verif-hooks, facade 2^3), quick = full powersets of the small crates and, for nexrad-data, the named-feature powerset + every optional dependency alone and on top of the named features + every pair and every triple of features (3-way interaction coverage) + every all-but-one set; the library is always checked alone (--lib) and the examples in a separate invocation, because dev-dependency feature unification can mask a missing cfg gate; plus default and --all-features; examples are checked whenever their required-features are enabled. Oracle = exit status of `cargo check --offline`. non-trivial = >= 2 features enabled",
+        "features derived from the four manifests ([features] keys + optional dependencies); thorough = the complete powerset per crate (model 2^3, decode 2^2, data 2^11 incl. verif-hooks, facade 2^3), quick = full powersets of the small crates and, for nexrad-data, the named-feature powerset + every optional dependency alone and on top of the named features + every pair and every triple of features (3-way interaction coverage) + every all-but-one set; the library is always checked alone (--lib) and the examples in a separate invocation, because dev-dependency feature unification can mask a missing cfg gate; plus default and --all-features; every invocation in both build profiles (dev: debug_assertions on; --release: off); examples are checked whenever their required-features are enabled. Oracle = exit status of `cargo check --offline`. non-trivial = >= 2 features enabled",
         thorough,
         json!({"crates": specs.iter().map(|s| json!({"name": s.name, "named": s.named, "optional": s.optional, "examples": s.examples.iter().map(|e| e.0.clone()).collect::<Vec<_>>()})).collect::<Vec<_>>(), "invocations": js.len(), "parallel_target_dirs": workers}),
     );
@@ -227,10 +237,12 @@ pub fn replay(ctx: &'static Ctx, case: &Value) {
         features: case["features"].as_array().map(|a| a.iter().filter_map(|x| x.as_str().map(|s| s.to_string())).collect()),
         all_features: case["all_features"].as_bool().unwrap_or(false),
         examples: case["examples"].as_bool().unwrap_or(false),
+        release: case["release"].as_bool().unwrap_or(false),
     };
     let (ok, stderr) = run_job(&j, "/verif/.target/c20-0");
     println!("replay C20 {:?}: builds={ok}\n{}", j, stderr.lines().filter(|l| l.starts_with("error")).take(5).collect::<Vec<_>>().join("\n"));
     if !ok {
-        ctx.fail(&format!("build:{}:{}", j.krate, first_error(&stderr)), || stderr.clone(), || case.clone());
+        let what = if stderr.contains("examples/") { "examples" } else { "lib" };
+        ctx.fail(&format!("build:{}:{what}:{}:{}", j.krate, if j.release { "release" } else { "dev" }, first_error(&stderr)), || stderr.clone(), || case.clone());
     }
 }
